@@ -157,3 +157,60 @@ def run_kind(c):
             "const": [[list(pos), [hexv(v) for v in vals]] for pos, vals in consts]}
   except Exception as e:
     return {"raise": type(e).__name__, "msg": str(e)[:100]}
+
+
+# ------------------------------------------------------------------ user-settable StrategyDict state (class i)
+class tweaked(object):
+  """with tweaked("comb", setdef="ff", realias=["alpha", "ff"]): ...  temporarily rebinds the default strategy
+  and / or one alias of a StrategyDict of the library, restoring both afterwards.  A strategy called by its own
+  name must not depend on either."""
+  def __init__(self, sd_name, setdef=None, realias=None):
+    self.sd_name, self.setdef, self.realias = sd_name, setdef, realias
+
+  def __enter__(self):
+    import audiolazy
+    self.sd = getattr(audiolazy, self.sd_name)
+    self.old_default = self.sd.default
+    self.old_alias = None
+    if self.setdef:
+      self.sd.default = self.sd[self.setdef]
+    if self.realias:
+      name, member = self.realias
+      self.old_alias = self.sd[name]
+      self.sd[name] = self.sd[member]
+    return self.sd
+
+  def __exit__(self, *exc):
+    if self.realias:
+      self.sd[self.realias[0]] = self.old_alias
+    self.sd.default = self.old_default
+    return False
+
+
+def call_strategy(sd_name, member, args, kwargs=None, setdef=None, realias=None, via="name"):
+  """calls sd[member] (via == "name": attribute access; "item": sd[alias]; "call": sd(...), which must behave
+  as the strategy installed as default - the harness installs `member` itself in that case)"""
+  kwargs = kwargs or {}
+  if via == "call":
+    setdef = member
+  with tweaked(sd_name, setdef, realias) as sd:
+    if via == "call":
+      return sd(*args, **kwargs)
+    if via == "item":
+      return sd[member](*args, **kwargs)
+    return getattr(sd, member)(*args, **kwargs)
+
+
+OTHER_MEMBER = {   # a member different from the one under test, installed as default while it is called
+  "comb": {"fb": "ff", "tau": "ff", "ff": "tau"},
+  "lowpass": {"pole": "z_exp", "z": "pole", "pole_exp": "z", "z_exp": "pole_exp"},
+  "highpass": {"pole": "z_exp", "z": "pole", "pole_exp": "z", "z_exp": "pole_exp"},
+  "resonator": {"poles_exp": "freq_z_exp", "freq_poles_exp": "z_exp", "z_exp": "freq_poles_exp", "freq_z_exp": "poles_exp"},
+  "gammatone": {"sampled": "klapuri", "slaney": "sampled", "klapuri": "slaney"},
+  "erb": {"gm90": "mg83", "mg83": "gm90"},
+}
+ALIASES = {
+  "comb": {"fb": ["alpha", "fb_alpha", "feedback_alpha"], "tau": ["fb_tau", "feedback_tau"],
+           "ff": ["ff_alpha", "feedforward_alpha"]},
+  "erb": {"gm90": ["glasberg_moore_90", "glasberg_moore"], "mg83": ["moore_glasberg_83"]},
+}
